@@ -78,6 +78,21 @@ func drawRewrite(t *rapid.T, d string) (r Rule) {
 		}
 	case 5, 6, 7:
 		r.Kind, r.Target = KRwCNAME, rapid.SampledFrom(Targets).Draw(t, "rwTarget")
+
+		// "Send the whole zone to one of its hosts": the pattern covers the
+		// target, so a question for the target is a rewrite to itself.
+		var under []string
+		for _, h := range Hosts {
+			if h == d || strings.HasSuffix(h, "."+d) {
+				under = append(under, h)
+			}
+		}
+
+		if len(under) > 0 && rapid.IntRange(0, 9).Draw(t, "rwSelf") < 4 {
+			r.Target = rapid.SampledFrom(under).Draw(t, "rwSelfTarget")
+		}
+
+		r.TargetCaps = rapid.IntRange(0, 3).Draw(t, "rwTargetCaps") == 0
 	default:
 		r.Kind, r.Rcode = KRwRcode, rapid.SampledFrom([]int{dns.RcodeRefused, dns.RcodeNameError, dns.RcodeServerFailure}).Draw(t, "rwRcode")
 	}
@@ -345,6 +360,33 @@ func DrawWorld(t *rapid.T, focus string, pSafe int) (w *World) {
 	}
 
 	has := func(label string) bool { return rapid.IntRange(0, 99).Draw(t, label) < pSafe }
+
+	// The shape "a CNAME rewrite whose pattern covers its own target, and the
+	// target is the host in focus" is constructed as well; the other rules of
+	// the lists stay, so that the rest of the precedence chain has something to
+	// say about the same name.
+	selfRw := rapid.IntRange(0, 6).Draw(t, "selfRewriteShape") == 0
+	selfRule := Rule{Kind: KRwCNAME, Target: focus}
+	selfWhere := 0
+	if selfRw {
+		selfRule.D = rapid.SampledFrom(ancestors(focus)).Draw(t, "selfRwZone")
+		selfRule.Exact = selfRule.D == focus && rapid.Bool().Draw(t, "selfRwExact")
+		selfRule.Long = rapid.Bool().Draw(t, "selfRwLong")
+		selfRule.TargetCaps = rapid.IntRange(0, 2).Draw(t, "selfRwCaps") == 0
+		selfWhere = rapid.IntRange(0, 3).Draw(t, "selfRwWhere")
+		switch {
+		case selfWhere == 0 || (selfWhere == 1 && len(w.Shared) == 0):
+			selfWhere = 0
+			if w.Custom == nil {
+				w.Custom = &List{ID: IDCustom}
+			}
+
+			w.Custom.Rules = dedupe(append([]Rule{selfRule}, w.Custom.Rules...))
+		case selfWhere == 1:
+			l := w.Shared[rapid.IntRange(0, len(w.Shared)-1).Draw(t, "selfRwList")]
+			l.Rules = dedupe(append([]Rule{selfRule}, l.Rules...))
+		}
+	}
 	if has("hasDangerous") {
 		w.Dangerous = DrawHash(t, IDDangerous, focus)
 	}
@@ -363,6 +405,26 @@ func DrawWorld(t *rapid.T, focus string, pSafe int) (w *World) {
 
 	if has("hasNewReg") {
 		w.NewReg = DrawHash(t, IDNewReg, focus)
+	}
+
+	if selfRw && selfWhere >= 2 {
+		// In a safe-search list, in the documented long form.
+		selfRule.Long = true
+		l := &w.GenSS
+		if selfWhere == 3 {
+			l = &w.YTSS
+		}
+
+		if *l == nil {
+			id := IDGenSS
+			if selfWhere == 3 {
+				id = IDYTSS
+			}
+
+			*l = &List{ID: id}
+		}
+
+		(*l).Rules = dedupe(append([]Rule{selfRule}, (*l).Rules...))
 	}
 
 	if ownAllow {
@@ -467,7 +529,11 @@ func (c *Config) Slots(host string, qt uint16) (n int) {
 		}
 
 		for _, l := range []*List{c.GenSS, c.YTSS} {
-			if l != nil && len(rewriteOutcomes(l, host, qt, true)) > 0 {
+			if l == nil {
+				continue
+			}
+
+			if outs, self := rewriteOutcomes(l, host, qt, true); len(outs) > 0 || self {
 				n++
 			}
 		}
